@@ -34,7 +34,7 @@ class TVD:
         if self.method == "heterogeneous bregman":
             # DarSIA type methods
             self.omega = kwargs.pop("omega", 1)
-            self.regularization = kwargs.get("regularization", 1.0)
+            self.regularization = kwargs.pop("regularization", 1.0)
 
         # General parameters
         self.weight = kwargs.pop(key + "weight", 0.1)
